@@ -349,7 +349,7 @@ def run(tier, seed, only=None):
     correspond(ck, cases)
     for f in outc["fails"] + out["fails"]:
         ck.failure(f["sig"], f["what"], f["replay"])
-    ck.cov["exhaustive"] = ("construction: every non-empty id set over {-1,0,1,3} x every phase list with ids from "
+    ck.cov["exhaustive_sweep"] = ("construction: every non-empty id set over {-1,0,1,3} x every phase list with ids from "
                             "{-1,0,1,2,3} of size <= %d (model validation only, not the theorem)"
                             % (3 if tier == "quick" else 4))
     ck.cov["partial_or_refuted"] = ["C12_set_phase_id_array_refuted", "C12_set_prop_frame_refuted",
